@@ -1,4 +1,4 @@
-package main
+package sx
 
 import (
 	"encoding/xml"
@@ -64,7 +64,7 @@ func (n *XN) coq(sb *strings.Builder) {
 	sb.WriteString("]")
 }
 
-func xdocCoq(content []*XN) string {
+func XDocCoq(content []*XN) string {
 	var sb strings.Builder
 	sb.WriteString("[")
 	for i, k := range content {
@@ -77,7 +77,7 @@ func xdocCoq(content []*XN) string {
 	return sb.String()
 }
 
-func xtoksCoq(toks []XTok) string {
+func XToksCoq(toks []XTok) string {
 	var xs []string
 	for _, t := range toks {
 		switch t.Kind {
@@ -92,10 +92,10 @@ func xtoksCoq(toks []XTok) string {
 	return vh.CoqList(xs)
 }
 
-// xmlTokens runs an independent xml.Decoder over the text and resolves names the way
+// XMLTokens runs an independent xml.Decoder over the text and resolves names the way
 // idr/xmlreader.go does (updateNamespaces + the prefix lookup of addNonTextChild).  ok=false
 // when the reader would fail (unknown namespace) or the text is not well-formed.
-func xmlTokens(text string) (toks []XTok, ok bool) {
+func XMLTokens(text string) (toks []XTok, ok bool) {
 	d := xml.NewDecoder(strings.NewReader(text))
 	space2prefix := map[string]string{"http://www.w3.org/XML/1998/namespace": "xml"}
 	resolve := func(nm xml.Name, attr bool) (string, string, bool) {
@@ -148,8 +148,8 @@ func xmlTokens(text string) (toks []XTok, ok bool) {
 	}
 }
 
-// xmlFromTokens rebuilds the document structure from the token stream.
-func xmlFromTokens(toks []XTok) ([]*XN, bool) {
+// XMLFromTokens rebuilds the document structure from the token stream.
+func XMLFromTokens(toks []XTok) ([]*XN, bool) {
 	root := &XN{}
 	stack := []*XN{root}
 	for _, t := range toks {
@@ -171,7 +171,7 @@ func xmlFromTokens(toks []XTok) ([]*XN, bool) {
 	return root.Kids, len(stack) == 1
 }
 
-func sameXN(a, b []*XN) bool {
+func SameXN(a, b []*XN) bool {
 	if len(a) != len(b) {
 		return false
 	}
@@ -186,7 +186,7 @@ func sameXN(a, b []*XN) bool {
 				return false
 			}
 		}
-		if !sameXN(x.Kids, y.Kids) {
+		if !SameXN(x.Kids, y.Kids) {
 			return false
 		}
 	}
@@ -265,7 +265,7 @@ func (g *xgen) elem(depth, maxDepth int, top bool) *XN {
 	return n
 }
 
-func genXMLDoc(r *vh.Rng) []*XN {
+func GenXMLDoc(r *vh.Rng) []*XN {
 	g := &xgen{r: r, budget: r.Between(3, 40)}
 	switch r.Pick(10) {
 	case 0, 1:
@@ -328,7 +328,7 @@ func writeXML(sb *strings.Builder, r *vh.Rng, kids []*XN) {
 	}
 }
 
-func xmlText(r *vh.Rng, content []*XN) string {
+func XMLText(r *vh.Rng, content []*XN) string {
 	var sb strings.Builder
 	if r.Chance(0.3) {
 		sb.WriteString(`<?xml version="1.0" encoding="UTF-8"?>`)
@@ -337,8 +337,8 @@ func xmlText(r *vh.Rng, content []*XN) string {
 	return sb.String()
 }
 
-func xmlVocab(content []*XN) *vocab {
-	v := &vocab{}
+func XMLVocab(content []*XN) *Vocab {
+	v := &Vocab{}
 	seenN := map[NT]bool{}
 	seenA := map[[2]string]bool{}
 	seenV := map[string]bool{}
